@@ -35,9 +35,9 @@ CHECKS.update({
     "C17": ("proof", "json_roundtrip / json_total proved for ALL sessions about the key tables REGENERATED from MarshalJSON/UnmarshalJSON on every run; differential round trips of the real codec; golden corpus; malformed and mutated inputs must give an error or a re-encodable session and never panic.", "6/C17"),
 })
 
-PENDING = {
-    "C15": "check under construction (generic lock-discipline theorem exists; the regenerated access table and the race-detector tie are being built)",
-}
+CHECKS["C15"] = ("proof", "Lock discipline: the access table of every Session field, cache.sessions and the CUID state is REGENERATED from the source on every run and `lockDiscipline_ok` (every access inside the right lock, or private, or write-once) is re-proved by the kernel; the generic theorem Drf.conflict_separated turns guarded accesses into happens-before separation; a small-step model of the four key/value methods is proved linearizable (GetAndDelete hands a value to at most one caller). Tie/search: the real package under the Go race detector on directed and random concurrent schedules (only reports with package frames count), panics, stuck goroutines, and a linearizability check of recorded key/value histories. Partial by nature: the Go memory model and the detector's completeness are not modelled.", "6/C15")
+
+PENDING = {}
 
 
 def main():
@@ -53,7 +53,8 @@ def main():
             "replay_cmd_template": "bin/check %s --replay {path}" % pid,
             "engine": "lean-model+harness",
             "level_claimed": {"category": cat, "text": text, "design_ref": "DESIGN.md §" + ref},
-            "level_note": LIFECYCLE_NOTE if pid not in ("C13", "C14", "C16", "C17", "C19", "C20") else
+            "level_note": LIFECYCLE_NOTE if pid not in ("C13", "C14", "C15", "C16", "C17", "C19", "C20") else
+            "Trusted: Lean kernel; the lexical lock-state walker of the go/ast extractor; sync.RWMutex/Mutex and the Go memory model (a release happens-before a later acquire); the race detector is used as a search, not as the proof." if pid == "C15" else
             "Trusted: Lean kernel; the transition system transcribed by hand from mutexes.go (tied to /repo by trace conformance on every run); Go runtime (channel rendezvous, select, scheduler, virtual clock); holds shorter than the staleness timeout." if pid in ("C13", "C14") else
             "Trusted: Lean kernel; the go/ast extractor that regenerates the codec programs; encoding/gob, encoding/json, time and strconv (per-value round trip assumed as laws)." if pid in ("C16", "C17") else
             "Trusted: Lean kernel; the hand-written Lean functions (tied to /repo on every run by exact recomputation of the real package's outputs); Go standard library (crypto/rand, encoding/base64, strings.ToLower, gzip).",
